@@ -255,19 +255,33 @@ def r09_3(ctx: Ctx) -> None:
     locs = [c for c in calls(func) if last_attr(c) == "get_sub_location_from_protein_coordinates"]
     if len(locs) != 1:
         raise AnalysisError("build_hits: sub-location call not found")
-    s, e = [txt(a) for a in locs[0].args[:2]]
-    dicts = [n for n in walk_local(func) if isinstance(n, ast.Dict)]
+    from ..cfg import CFG as _CFG2
+    from ..flow import inline_reaching as _res2
+    bcfg = _CFG2(func)
+    recv = txt(locs[0].func.value)  # type: ignore[attr-defined]
+    keep_names = {recv.split(".")[0]}
+    s, e = [txt(_res2(bcfg, locs[0], a, keep=keep_names)) for a in locs[0].args[:2]]
+    records = []
+    for node in walk_local(func):
+        if isinstance(node, ast.Dict):
+            records.append((node, {k.value: v for k, v in zip(node.keys, node.values) if isinstance(k, ast.Constant)}))
+        elif isinstance(node, ast.Call) and call_name(node) == "HmmerHit" and node.keywords:
+            records.append((node, {k.arg: k.value for k in node.keywords if k.arg}))
     ok = False
     form = ""
-    for d in dicts:
-        items = {k.value: v for k, v in zip(d.keys, d.values) if isinstance(k, ast.Constant)}
+    for site, items in records:
         if "translation" in items and "protein_start" in items:
-            tr = items["translation"]
+            tr = _res2(bcfg, site, items["translation"], keep=keep_names)
+            def val(key: str) -> str:
+                return txt(_res2(bcfg, site, items[key], keep=keep_names)) if key in items else ""
             ok = isinstance(tr, ast.Subscript) and isinstance(tr.slice, ast.Slice) and txt(tr.slice.lower) == s \
-                and txt(tr.slice.upper) == e and txt(items["protein_start"]) == s and txt(items["protein_end"]) == e \
-                and txt(items["location"]) == "str(location)" and txt(tr.value).endswith(".translation")
-            recv = txt(locs[0].func.value)  # type: ignore[attr-defined]
-            ok = ok and txt(tr.value) == f"{recv}.translation" and txt(items["locus_tag"]) == f"{recv}.get_name()"
+                and txt(tr.slice.upper) == e and val("protein_start") == s and val("protein_end") == e \
+                and val("location").startswith("str(") and txt(tr.value) == f"{recv}.translation" \
+                and val("locus_tag") == f"{recv}.get_name()"
+            # the stored location is the sub-location computed from the same range
+            loc_names = {txt(t) for n in walk_local(func) if isinstance(n, ast.Assign) and n.value is locs[0] for t in n.targets}
+            ok = ok and (txt(items["location"]) in {f"str({name})" for name in loc_names} or val("location") == f"str({txt(locs[0])})"
+                         or any(f"str({name})" == txt(items["location"]) for name in loc_names))
             form = f"location=sub({s}, {e}); translation={txt(tr)}"
     ctx.ob("R09.3", HMMER, locs[0], "build_hits", "range agreement", ok,
            "the protein range that positions a hit is the range that slices its translation and is stored with it, "
@@ -343,8 +357,12 @@ def r09_4(ctx: Ctx) -> None:
         if isinstance(node, (ast.If, ast.IfExp, ast.While)):
             tests.append(node.test)
     count = 0
+    from ..cfg import CFG as _CFG
+    from ..flow import inline_reaching as _res
+    wcfg = _CFG(func)
     for test in tests:
-        for lit, _ in _split(test):
+        for raw, _ in _split(test):
+            lit = _res(wcfg, raw, raw, keep={first, last, var})
             names = {n.id for n in ast.walk(lit) if isinstance(n, ast.Name)}
             if var not in names or not names & {first, last}:
                 continue
@@ -364,8 +382,11 @@ def r09_4(ctx: Ctx) -> None:
     if count < 3:
         raise AnalysisError(f"{qual}: expected 3 exon membership tests in the exon walk, found {count}")
     # the walk visits exons in ascending coordinate order (the arms assume start-before-end)
-    ok = isinstance(loop.iter, ast.Call) and call_name(loop.iter) == "sorted" and kwarg(loop.iter, "key") is not None \
-        and txt(kwarg(loop.iter, "key")).endswith(".start") and kwarg(loop.iter, "reverse") is None
+    from ..flow import key_function
+    walk_key = key_function(ctx.repo, FEAT, func, kwarg(loop.iter, "key")) if isinstance(loop.iter, ast.Call) \
+        and kwarg(loop.iter, "key") is not None else None
+    ok = isinstance(loop.iter, ast.Call) and call_name(loop.iter) == "sorted" and walk_key is not None \
+        and txt(walk_key[1]) == f"{walk_key[0]}.start" and kwarg(loop.iter, "reverse") is None
     ctx.ob("R09.4", FEAT, loop, qual, "exon walk order", ok,
            "the exons are visited in ascending start order, whatever the strand (parts are re-reversed afterwards)",
            form=txt(loop.iter))
@@ -382,8 +403,10 @@ def r09_6(ctx: Ctx) -> None:
     func = ctx.fn(FEAT, qual)
     cfg = CFG(func)
     sites = [c for c in calls(func) if call_name(c) == "convert_protein_position_to_dna"]
+    from ..flow import key_function as _key
     sites += [c for c in calls(func) if call_name(c) == "sorted" and c.args and txt(c.args[0]).endswith(".parts")
-              and kwarg(c, "key") is not None and txt(kwarg(c, "key")).endswith(".start")]
+              and kwarg(c, "key") is not None and _key(ctx.repo, FEAT, func, kwarg(c, "key")) is not None
+              and txt(_key(ctx.repo, FEAT, func, kwarg(c, "key"))[1]).endswith(".start")]
     if len(sites) < 2:
         raise AnalysisError(f"{qual}: the conversion call and the coordinate-ordered exon walk were not found")
     for call in sites:
